@@ -1,140 +1,216 @@
 (* C05/Proofs_threads.v — SyncLogger under threads: for ALL interleavings of dispatcher, user and consumer
    steps (coq/C05/SyncThreads.v): FIFO / at-most-once / nothing foreign / nothing of an earlier session;
-   a consumer inside get() is never stuck after a link loss; where the code can block for ever. *)
+   a consumer inside get() is never stuck after a link loss, also when the link is lost at any point of
+   connect(); where the code can block for ever; refutation of registering _disconnected after the loop. *)
 Require Import CF.C05.Model CF.C05.SyncThreads CF.C05.Proofs_sync.
 Open Scope Z_scope.
 
-Definition is_tconnect (e : tev) : bool := match e with TConnect => true | _ => false end.
+Definition clears_queue (e : tev) : bool := match e with TConnect | TConnBegin => true | _ => false end.
 Definition is_tdisconnect (e : tev) : bool := match e with TDisconnect => true | _ => false end.
+Definition is_tbegin (e : tev) : bool := match e with TConnBegin => true | _ => false end.
 
 Fixpoint tyields (os : list tobs) : list Z :=
   match os with [] => [] | OYield k :: r => k :: tyields r | _ :: r => tyields r end.
 
-(* the samples the logger's own blocks deliver while it is connected *)
-Fixpoint tdelivered (own : list Z) (conn : bool) (evs : list tev) : list Z :=
+(* the samples put into the queue: data packets of blocks whose data callback is registered *)
+Fixpoint tenq (s : tsl) (evs : list tev) : list Z :=
   match evs with
   | [] => []
-  | TSample c k :: r => if conn && existsb (Z.eqb c) own then k :: tdelivered own conn r else tdelivered own conn r
-  | TDisconnect :: r | TLost1 :: r => tdelivered own false r
-  | TConnect :: r => tdelivered own conn r
-  | _ :: r => tdelivered own conn r
+  | e :: r =>
+      (match e with TSample c k => if memz c (t_dreg s) && memz c (t_blk s) then [k] else [] | _ => [] end)
+      ++ tenq (fst (t_step s e)) r
   end.
 
-Lemma t_step_own s e : t_own (fst (t_step s e)) = t_own s.
+Lemma t_run_cons s e r : t_run s (e :: r) =
+  (fst (t_run (fst (t_step s e)) r), snd (t_step s e) :: snd (t_run (fst (t_step s e)) r)).
 Proof.
-  destruct e; cbn [t_step]; try reflexivity.
-  - destruct (t_conn s); reflexivity.
-  - destruct (t_cons s); [destruct (t_conn s)|]; reflexivity.
-  - destruct (t_cons s), (t_queue s) as [|[k|] q]; reflexivity.
-  - destruct (t_conn s && owns s cfg); reflexivity.
-  - destruct (t_conn s); reflexivity.
-  - destruct (t_pend s); reflexivity.
+  unfold t_run, t_step. cbn [t_rung]. destruct (t_stepg true s e) as [s1 o]. cbn [fst snd].
+  destruct (t_rung true s1 r). reflexivity.
 Qed.
 
+Lemma t_final_cons s e r : fst (t_run s (e :: r)) = fst (t_run (fst (t_step s e)) r).
+Proof. now rewrite t_run_cons. Qed.
+
 (* ------------------------------------------------------------------ conservation (safety) *)
-(* yielded ++ still queued = queued before ++ delivered: for every state and every interleaving without
-   connect().  Hence what is yielded is a prefix of what was delivered: in order, once each, nothing else. *)
+(* the queue content changes by enqueueing at the tail and the consumer taking the head, nothing else,
+   unless connect() empties it *)
+Lemma t_step_queue s e : clears_queue e = false ->
+  tyields [snd (t_step s e)] ++ qsamples (t_queue (fst (t_step s e)))
+    = qsamples (t_queue s) ++ (match e with TSample c k => if memz c (t_dreg s) && memz c (t_blk s) then [k] else [] | _ => [] end).
+Proof.
+  intros Hc. destruct s as [conn q k p own reg dreg cpos link known blk]. unfold t_step.
+  destruct e; try discriminate; cbn [t_stepg t_conn t_queue t_cons t_pend t_own t_reg t_dreg t_cpos t_link t_known t_blk];
+    unfold cfg_turn;
+    repeat match goal with
+           | |- context [match ?x with _ => _ end] => destruct x
+           | |- context [if ?x then _ else _] => destruct x
+           end; cbn; rewrite ?qsamples_app, ?app_nil_r; cbn; rewrite ?app_nil_r; reflexivity.
+Qed.
+
+Lemma tyields_cons o os : tyields (o :: os) = tyields [o] ++ tyields os.
+Proof. destruct o; reflexivity. Qed.
+
 Lemma t_conservation evs : forall s,
-  forallb (fun e => negb (is_tconnect e)) evs = true ->
+  forallb (fun e => negb (clears_queue e)) evs = true ->
   tyields (snd (t_run s evs)) ++ qsamples (t_queue (fst (t_run s evs)))
-    = qsamples (t_queue s) ++ tdelivered (t_own s) (t_conn s) evs.
+    = qsamples (t_queue s) ++ tenq s evs.
 Proof.
   induction evs as [|e r IH]; intros s Hc.
   - cbn. now rewrite app_nil_r.
   - cbn [forallb] in Hc. apply andb_true_iff in Hc as [Hc1 Hc2].
-    cbn [t_run]. pose proof (t_step_own s e) as Ho.
-    destruct (t_step s e) as [s1 o] eqn:Es. cbn [fst] in Ho.
-    specialize (IH s1 Hc2). destruct (t_run s1 r) as [s2 os]. cbn [fst snd] in *.
-    rewrite Ho in IH.
-    destruct e; try discriminate; cbn [t_step] in Es.
-    + (* TDisconnect *) inversion Es; subst. cbn [tyields tdelivered t_queue t_conn set_q] in *. exact IH.
-    + (* TNext *) destruct (t_cons s); [destruct (t_conn s) eqn:Ec|]; inversion Es; subst;
-        cbn [tyields tdelivered t_queue t_conn set_q] in *; rewrite ?Ec in *; exact IH.
-    + (* TGet *) destruct (t_cons s), (t_queue s) as [|[k|] q] eqn:Eq; inversion Es; subst;
-        cbn [tyields tdelivered t_queue t_conn set_q qsamples app] in *; rewrite ?Eq in *;
-        cbn [qsamples app]; try exact IH. f_equal. exact IH.
-    + (* TSample *) unfold owns in Es. cbn [tdelivered].
-      destruct (t_conn s && existsb (Z.eqb cfg) (t_own s)) eqn:E; inversion Es; subst;
-        cbn [tyields t_queue t_conn set_q] in *; [|exact IH].
-      apply andb_true_iff in E as [E1 _]. rewrite E1.
-      rewrite IH, qsamples_app. cbn [qsamples app]. now rewrite <- app_assoc.
-    + (* TLost1 *) destruct (t_conn s) eqn:Ec; inversion Es; subst;
-        cbn [tyields tdelivered t_queue t_conn set_q] in *; rewrite ?Ec in *; exact IH.
-    + (* TLost2 *) destruct (t_pend s); inversion Es; subst; cbn [tyields tdelivered t_queue t_conn set_q] in *;
-        [exact IH|]. rewrite IH, qsamples_app. cbn [qsamples]. now rewrite app_nil_r.
+    rewrite t_run_cons. cbn [fst snd tenq]. rewrite tyields_cons, <- app_assoc, IH by exact Hc2.
+    rewrite app_assoc, t_step_queue by (destruct (clears_queue e); [discriminate|reflexivity]).
+    now rewrite <- app_assoc.
 Qed.
 
-(* one session of a logger, whatever happened to the object before (earlier sessions, a consumer still
-   inside get(), a sentinel still on its way): connect, then anything but connect *)
-Lemma t_session s0 evs : t_conn s0 = false ->
-  forallb (fun e => negb (is_tconnect e)) evs = true ->
-  let r := t_run s0 (TConnect :: evs) in
-  tyields (snd r) ++ qsamples (t_queue (fst r)) = tdelivered (t_own s0) true evs.
+(* one session of a logger, whatever happened to the object before: connect() (in one go or step by step)
+   empties the queue, so nothing of an earlier run is yielded *)
+Lemma t_session s0 e evs : clears_queue e = true -> snd (t_step s0 e) = ONone ->
+  forallb (fun e => negb (clears_queue e)) evs = true ->
+  let r := t_run s0 (e :: evs) in
+  tyields (snd r) ++ qsamples (t_queue (fst r)) = tenq (fst (t_step s0 e)) evs.
 Proof.
-  intros H0 Hc. cbn zeta. cbn [t_run t_step]. rewrite H0.
-  pose proof (t_conservation evs (set_q s0 true [] (t_cons s0) (t_pend s0)) Hc) as H.
-  destruct (t_run (set_q s0 true [] (t_cons s0) (t_pend s0)) evs) as [s2 os].
-  cbn [fst snd tyields t_queue t_conn t_own set_q qsamples app] in *. exact H.
+  intros Hc Ho Hn. cbn zeta. rewrite t_run_cons. cbn [fst snd]. rewrite tyields_cons, Ho. cbn [tyields app].
+  rewrite t_conservation by exact Hn.
+  assert (Q : t_queue (fst (t_step s0 e)) = []).
+  { destruct s0 as [conn q k p own reg dreg cpos link known blk]. unfold t_step in *.
+    destruct e; try discriminate; cbn [t_stepg t_conn t_cpos t_link t_own t_dreg t_known t_blk] in *; destruct cpos; try discriminate;
+      destruct conn; try discriminate; try reflexivity.
+    destruct (cfg_loop link own dreg known blk) as [[[d1 k1] b1] ok]. destruct ok; [reflexivity|discriminate]. }
+  now rewrite Q.
 Qed.
 
-(* nothing foreign: a delivered (hence a yielded) sample comes from one of the logger's own blocks *)
-Lemma tdelivered_own own evs : forall conn k, In k (tdelivered own conn evs) ->
-  exists c, existsb (Z.eqb c) own = true /\ In (TSample c k) evs.
+(* nothing foreign: data callbacks are registered on the logger's own configurations only *)
+Definition dreg_own (s : tsl) : Prop := forall c, memz c (t_dreg s) = true -> owns s c = true.
+
+Lemma memz_add_reg c x l : memz c (add_reg x l) = true -> memz c l = true \/ c = x.
 Proof.
-  induction evs as [|e r IH]; intros conn k H; [contradiction|].
-  destruct e; cbn [tdelivered] in H;
-    try (destruct (IH _ _ H) as (c & A & B); exists c; split; [exact A|now right]).
-  destruct (conn && existsb (Z.eqb cfg) own) eqn:E.
-  - destruct H as [<-|H].
-    + exists cfg. apply andb_true_iff in E as [_ E]. split; [exact E|now left].
-    + destruct (IH _ _ H) as (c & A & B). exists c. split; [exact A|now right].
-  - destruct (IH _ _ H) as (c & A & B). exists c. split; [exact A|now right].
+  unfold add_reg. destruct (memz x l); [auto|]. unfold memz. rewrite existsb_app. cbn.
+  intros H. apply orb_true_iff in H as [H|H]; [auto|]. right. rewrite orb_false_r in H. now apply Z.eqb_eq in H.
+Qed.
+
+Lemma memz_in c l : memz c l = true <-> In c l.
+Proof.
+  unfold memz. rewrite existsb_exists. split.
+  - intros (x & A & B). apply Z.eqb_eq in B. now subst.
+  - intros H. exists c. split; [exact H|apply Z.eqb_refl].
+Qed.
+
+Lemma fold_add_reg_own own : forall xs l c, (forall x, In x xs -> In x own) ->
+  memz c (fold_left (fun l c => add_reg c l) xs l) = true -> memz c l = true \/ In c own.
+Proof.
+  induction xs as [|x xs IH]; intros l c Hs H; [auto|]. cbn [fold_left] in H.
+  destruct (IH _ _ (fun y Hy => Hs y (or_intror Hy)) H) as [A|A]; [|auto].
+  destruct (memz_add_reg _ _ _ A) as [B|E]; [auto|]. subst. right. apply Hs. now left.
+Qed.
+
+Lemma cfg_loop_dreg link : forall cs dreg known blk d1 k1 b1 ok c,
+  cfg_loop link cs dreg known blk = (d1, k1, b1, ok) -> memz c d1 = true -> memz c dreg = true \/ In c cs.
+Proof.
+  induction cs as [|x cs IH]; intros dreg known blk d1 k1 b1 ok c H Hm; cbn [cfg_loop] in H.
+  - inversion H; subst. auto.
+  - unfold cfg_turn in H. destruct (memz x (if link then add_reg x known else known)).
+    + destruct (IH _ _ _ _ _ _ _ c H Hm) as [A|A]; [|right; now right].
+      destruct (memz_add_reg _ _ _ A) as [B|E]; [auto|subst; right; now left].
+    + inversion H; subst. destruct (memz_add_reg _ _ _ Hm) as [B|E]; [auto|subst; right; now left].
+Qed.
+
+Lemma t_step_dreg_own s e : dreg_own s -> dreg_own (fst (t_step s e)) /\ t_own (fst (t_step s e)) = t_own s.
+Proof.
+  intros D. destruct s as [conn q k p own reg dreg cpos link known blk]. unfold dreg_own, owns, t_step in *.
+  cbn [t_dreg t_own] in D.
+  destruct e; cbn [t_stepg t_conn t_queue t_cons t_pend t_own t_reg t_dreg t_cpos t_link t_known t_blk].
+  - destruct cpos; [split; auto|]. destruct conn; [split; auto|].
+    destruct (cfg_loop link own dreg known blk) as [[[d1 k1] b1] ok] eqn:E.
+    assert (G : forall c, memz c d1 = true -> memz c own = true).
+    { intros c H. destruct (cfg_loop_dreg _ _ _ _ _ _ _ _ _ c E H) as [A|A]; [auto|now apply memz_in]. }
+    destruct ok; cbn; split; auto.
+  - destruct cpos; [split; auto|]. destruct conn; cbn; split; auto.
+  - destruct cpos as [j|]; [|split; auto]. destruct (nth_error own j) as [c|] eqn:En; [|split; auto].
+    unfold cfg_turn.
+    assert (G : forall x, memz x (add_reg c dreg) = true -> memz x own = true).
+    { intros x H. destruct (memz_add_reg _ _ _ H) as [A|E]; [auto|subst]. apply memz_in. eapply nth_error_In. eassumption. }
+    destruct (memz c (if link then add_reg c known else known)); cbn; split; auto.
+  - destruct cpos as [j|]; [destruct (Nat.eqb j (length own))|]; cbn; split; auto.
+  - destruct cpos; [|destruct conn]; cbn; split; auto; discriminate.
+  - destruct k; [destruct conn|]; cbn; split; auto.
+  - destruct k, q as [|[x|] q']; cbn; split; auto.
+  - destruct (memz cfg dreg && memz cfg blk); cbn; split; auto.
+  - destruct link; cbn; split; auto.
+  - destruct reg; [destruct conn|]; cbn; split; auto; discriminate.
+  - destruct p; cbn; split; auto.
+Qed.
+
+Lemma tenq_own evs : forall s k, dreg_own s -> In k (tenq s evs) ->
+  exists c, owns s c = true /\ In (TSample c k) evs.
+Proof.
+  induction evs as [|e r IH]; intros s k D H; [contradiction|].
+  cbn [tenq] in H. apply in_app_or in H as [H|H].
+  - destruct e; try contradiction. destruct (memz cfg (t_dreg s) && memz cfg (t_blk s)) eqn:E; [|contradiction].
+    apply andb_true_iff in E as [E _].
+    destruct H as [<-|[]]. exists cfg. split; [now apply D|now left].
+  - destruct (t_step_dreg_own s e D) as [D1 O1].
+    destruct (IH _ _ D1 H) as (c & A & B). exists c. unfold owns in *. rewrite O1 in A. split; [exact A|now right].
 Qed.
 
 (* ------------------------------------------------------------------ liveness: never stuck after a link loss *)
-(* a consumer inside get() has the connection still up, or a sentinel on its way (the dispatcher will put
-   it: TLost2), or something to take *)
 Definition live (s : tsl) : Prop :=
   t_cons s = CInGet -> t_conn s = true \/ (0 < t_pend s)%nat \/ t_queue s <> [].
 
-Lemma t_step_live s e : is_tdisconnect e = false -> live s -> live (fst (t_step s e)).
+Definition is_tconnect (e : tev) : bool := match e with TConnect => true | _ => false end.
+
+Lemma t_step_live s e : is_tdisconnect e = false -> is_tbegin e = false -> is_tconnect e = false ->
+  live s -> live (fst (t_step s e)).
 Proof.
-  intros Hd L. unfold live in *. destruct s as [conn q k p own]. cbn [t_cons t_conn t_pend t_queue] in L.
-  destruct e; try discriminate; cbn [t_step t_conn t_cons t_queue t_pend].
-  - destruct conn; cbn; auto.
+  intros Hd Hb Hc L. unfold live in *. destruct s as [conn q k p own reg dreg cpos link known blk]. unfold t_step.
+  cbn [t_cons t_conn t_pend t_queue] in L.
+  destruct e; try discriminate; cbn [t_stepg t_conn t_cons t_queue t_pend t_own t_reg t_dreg t_cpos t_link t_known t_blk].
+  - destruct cpos as [j|]; [destruct (nth_error own j)|]; unfold cfg_turn;
+      repeat match goal with |- context [if ?x then _ else _] => destruct x end; cbn; auto.
+  - destruct cpos as [j|]; [destruct (Nat.eqb j (length own))|]; cbn; auto.
   - destruct k; [destruct conn|]; cbn; auto; try discriminate.
   - destruct k, q as [|[x|] q']; cbn; auto; try discriminate.
-  - unfold owns. cbn [t_conn t_own]. destruct (conn && existsb (Z.eqb cfg) own) eqn:E; cbn; auto.
-  - destruct conn; cbn; auto. intros _. right. left. apply Nat.lt_0_succ.
+  - destruct (memz cfg dreg && memz cfg blk); cbn; auto. intros H. destruct (L H) as [A|[A|A]]; auto.
+    right. right. destruct q; discriminate.
+  - destruct link; cbn; auto.
+  - destruct reg; [destruct conn|]; cbn; auto; intros _; right; left; apply Nat.lt_0_succ.
   - destruct p; cbn; auto. intros _. right. right. destruct q; discriminate.
 Qed.
 
-Lemma t_final_cons s e r : fst (t_run s (e :: r)) = fst (t_run (fst (t_step s e)) r).
-Proof. cbn [t_run]. destruct (t_step s e) as [s1 o]. cbn [fst]. destruct (t_run s1 r). reflexivity. Qed.
-
-Lemma t_run_live evs : forall s, forallb (fun e => negb (is_tdisconnect e)) evs = true -> live s ->
-  live (fst (t_run s evs)).
+(* connect() in one go that succeeds keeps the invariant as well *)
+Lemma t_connect_live s : snd (t_step s TConnect) = ONone -> live (fst (t_step s TConnect)).
 Proof.
-  induction evs as [|e r IH]; intros s Hd L; [exact L|].
-  cbn [forallb] in Hd. apply andb_true_iff in Hd as [Hd1 Hd2]. rewrite t_final_cons.
-  apply IH; [exact Hd2|]. apply t_step_live; [destruct (is_tdisconnect e); [discriminate|reflexivity]|exact L].
+  unfold live, t_step. destruct s as [conn q k p own reg dreg cpos link known blk].
+  cbn [t_stepg t_conn t_cpos t_link t_own t_dreg t_known t_blk]. destruct cpos; [discriminate|]. destruct conn; [discriminate|].
+  destruct (cfg_loop link own dreg known blk) as [[[d1 k1] b1] ok]. destruct ok; [|discriminate]. cbn. auto.
 Qed.
 
-(* progress: what is enabled in a live state *)
+Lemma t_run_live evs : forall s,
+  forallb (fun e => negb (is_tdisconnect e) && negb (is_tbegin e) && negb (is_tconnect e)) evs = true ->
+  live s -> live (fst (t_run s evs)).
+Proof.
+  induction evs as [|e r IH]; intros s Hd L; [exact L|].
+  cbn [forallb] in Hd. apply andb_true_iff in Hd as [Hd1 Hd2]. apply andb_true_iff in Hd1 as [Hd1 Hc].
+  apply andb_true_iff in Hd1 as [Ha Hb].
+  rewrite t_final_cons. apply IH; [exact Hd2|].
+  apply t_step_live; [destruct (is_tdisconnect e)|destruct (is_tbegin e)|destruct (is_tconnect e)|exact L]; try discriminate; reflexivity.
+Qed.
+
 Lemma t_get_returns s : t_cons s = CInGet -> t_queue s <> [] ->
   t_cons (fst (t_step s TGet)) = CIdle /\ snd (t_step s TGet) <> ONoop.
 Proof.
-  intros Hk Hq. cbn [t_step]. rewrite Hk. destruct (t_queue s) as [|[k|] q]; [contradiction| |]; cbn; split; auto; discriminate.
+  intros Hk Hq. unfold t_step. cbn [t_stepg]. rewrite Hk.
+  destruct (t_queue s) as [|[k|] q]; [contradiction| |]; cbn; split; auto; discriminate.
 Qed.
 
 Lemma t_lost2_puts s : (0 < t_pend s)%nat -> t_queue (fst (t_step s TLost2)) <> [].
-Proof. intros H. cbn [t_step]. destruct (t_pend s); [inversion H|]. cbn. destruct (t_queue s); discriminate. Qed.
+Proof.
+  intros H. unfold t_step. cbn [t_stepg]. destruct (t_pend s); [inversion H|]. cbn. destruct (t_queue s); discriminate.
+Qed.
 
 Lemma t_next_stops s : t_cons s = CIdle -> t_conn s = false -> t_step s TNext = (s, OStop).
-Proof. intros A B. cbn [t_step]. now rewrite A, B. Qed.
+Proof. intros A B. unfold t_step. cbn [t_stepg]. now rewrite A, B. Qed.
 
-(* after the link loss has completed (flag cleared, sentinel put), the consumer terminates: if it is inside
-   get() it returns (a sample that was queued before, or StopIteration), and its next next() stops *)
 Lemma t_terminates_after_link_loss s : live s -> t_conn s = false -> t_pend s = 0%nat ->
   let s1 := match t_cons s with CInGet => fst (t_step s TGet) | CIdle => s end in
   t_cons s1 = CIdle /\ t_step s1 TNext = (s1, OStop).
@@ -143,27 +219,173 @@ Proof.
   - split; [exact Ek|]. now apply t_next_stops.
   - destruct (L Ek) as [A|[A|A]]; [congruence|rewrite Hp in A; inversion A|].
     destruct (t_get_returns s Ek A) as [B _]. split; [exact B|]. apply t_next_stops; [exact B|].
-    cbn [t_step]. rewrite Ek. destruct (t_queue s) as [|[k|] q]; [contradiction| |]; cbn; exact Hc.
+    unfold t_step. cbn [t_stepg]. rewrite Ek. destruct (t_queue s) as [|[k|] q]; [contradiction| |]; cbn; exact Hc.
 Qed.
 
-(* where the code does block for ever: disconnect() called by another thread while the consumer is inside
-   get() on an empty queue -- no sentinel is put, and no later event but a new connect() changes anything *)
+(* where the code does block for ever: disconnect() by another thread while the consumer is inside get() *)
 Definition stuck (s : tsl) : Prop :=
-  t_cons s = CInGet /\ t_conn s = false /\ t_pend s = 0%nat /\ t_queue s = [].
+  t_cons s = CInGet /\ t_conn s = false /\ t_pend s = 0%nat /\ t_queue s = [] /\ t_dreg s = [] /\ t_reg s = false /\
+  t_cpos s = None.
 
 Lemma t_stuck_for_ever evs : forall s, stuck s ->
-  forallb (fun e => negb (is_tconnect e)) evs = true ->
-  fst (t_run s evs) = s /\ tyields (snd (t_run s evs)) = [].
+  forallb (fun e => negb (clears_queue e)) evs = true ->
+  stuck (fst (t_run s evs)) /\ tyields (snd (t_run s evs)) = [].
 Proof.
-  induction evs as [|e r IH]; intros s St Hc; [split; reflexivity|].
+  induction evs as [|e r IH]; intros s St Hc; [split; [exact St|reflexivity]|].
   cbn [forallb] in Hc. apply andb_true_iff in Hc as [Hc1 Hc2].
-  destruct St as (A & B & C & D).
-  assert (Es : fst (t_step s e) = s /\ tyields [snd (t_step s e)] = []).
-  { destruct e; try discriminate; cbn [t_step]; rewrite ?A, ?B, ?C, ?D; cbn; split; try reflexivity.
-    destruct s; cbn in *; subst; reflexivity. }
-  cbn [t_run]. destruct (t_step s e) as [s1 o]. cbn [fst snd] in Es. destruct Es as [-> Eo].
-  specialize (IH s (conj A (conj B (conj C D))) Hc2). destruct (t_run s r) as [s2 os]. cbn [fst snd] in *.
-  destruct IH as [-> Y]. split; [reflexivity|]. destruct o; cbn in *; try exact Y. discriminate.
+  assert (Es : stuck (fst (t_step s e)) /\ tyields [snd (t_step s e)] = []).
+  { destruct s as [conn q k p own reg dreg cpos link known blk]. destruct St as (A & B & C & D & E & F & G).
+    cbn in A, B, C, D, E, F, G. subst.
+    unfold t_step, stuck. destruct e; try discriminate; cbn; try destruct link; cbn; repeat split; reflexivity. }
+  rewrite t_run_cons. cbn [fst snd]. destruct Es as [E1 E2].
+  destruct (IH _ E1 Hc2) as [A B]. split; [exact A|]. rewrite tyields_cons, E2, B. reflexivity.
+Qed.
+
+(* ------------------------------------------------------------------ link loss at any point of connect() *)
+(* connect() step by step over n configurations; the link is lost after j of them (between two steps, or
+   inside the last send of step j, which is the same sequence of steps); then the consumer iterates *)
+Definition connect_with_loss (n j : nat) : list tev :=
+  [TConnBegin] ++ repeat TConnCfg j ++ [TLost1] ++ repeat TConnCfg (n - j) ++ [TConnEnd; TLost2; TNext; TGet].
+
+Definition fresh (s : tsl) : Prop :=
+  t_conn s = false /\ t_cpos s = None /\ t_reg s = false /\ t_cons s = CIdle /\ t_pend s = 0%nat /\ t_link s = true.
+
+(* no turn of the loop of connect() raises: the link is up (add_config accepts), or every own configuration
+   has been accepted before *)
+Definition allknown (s : tsl) : Prop := forall c, In c (t_own s) -> memz c (t_known s) = true.
+Definition noraise (s : tsl) : Prop := t_link s = true \/ allknown s.
+
+Lemma memz_add_reg_self c l : memz c (add_reg c l) = true.
+Proof.
+  unfold add_reg. destruct (memz c l) eqn:E; [exact E|]. unfold memz. rewrite existsb_app. cbn.
+  rewrite Z.eqb_refl. now rewrite orb_true_r.
+Qed.
+
+Lemma memz_add_reg_mono c x l : memz c l = true -> memz c (add_reg x l) = true.
+Proof.
+  intros H. unfold add_reg. destruct (memz x l); [exact H|]. unfold memz in *. rewrite existsb_app, H. reflexivity.
+Qed.
+
+Lemma cfg_steps early : forall m s a, t_cpos s = Some a -> (a + m <= length (t_own s))%nat ->
+  m = 0%nat \/ noraise s ->
+  let s' := fst (t_rung early s (repeat TConnCfg m)) in
+  t_cpos s' = Some (a + m)%nat /\ t_conn s' = t_conn s /\ t_queue s' = t_queue s /\ t_cons s' = t_cons s /\
+  t_pend s' = t_pend s /\ t_reg s' = t_reg s /\ t_own s' = t_own s /\ t_link s' = t_link s /\
+  (allknown s -> allknown s') /\
+  snd (t_rung early s (repeat TConnCfg m)) = repeat ONone m.
+Proof.
+  induction m as [|m IH]; intros s a Hc Hl Hn; cbn zeta.
+  - cbn. rewrite Nat.add_0_r. auto 12.
+  - destruct Hn as [Hn|Hn]; [discriminate|].
+    cbn [repeat t_rung t_stepg]. rewrite Hc.
+    destruct (nth_error (t_own s) a) as [c|] eqn:En; [|apply nth_error_None in En; lia].
+    unfold cfg_turn.
+    assert (Hok : memz c (if t_link s then add_reg c (t_known s) else t_known s) = true).
+    { destruct Hn as [Hn|Hn]; [rewrite Hn; apply memz_add_reg_self|].
+      destruct (t_link s); [apply memz_add_reg_self|]. apply Hn. eapply nth_error_In. eassumption. }
+    rewrite Hok.
+    set (s1 := set_kb (upd s (t_conn s) (t_queue s) (t_cons s) (t_pend s) (t_reg s) (add_reg c (t_dreg s)) (Some (S a)))
+                      (if t_link s then add_reg c (t_known s) else t_known s)
+                      (if t_link s then add_reg c (t_blk s) else t_blk s)).
+    assert (Ak : allknown s -> allknown s1).
+    { intros A x Hx. cbn. destruct (t_link s); [apply memz_add_reg_mono|]; now apply A. }
+    assert (N1 : noraise s1).
+    { destruct Hn as [Hn|Hn]; [left; exact Hn|right; now apply Ak]. }
+    specialize (IH s1 (S a) eq_refl ltac:(cbn; lia) (or_intror N1)). cbn zeta in IH.
+    destruct (t_rung early s1 (repeat TConnCfg m)) as [s2 os]. cbn [fst snd] in *.
+    destruct IH as (A & B & C & D & E & F & G & Hk & K & H). rewrite A, B, C, D, E, F, G, Hk, H.
+    replace (S a + m)%nat with (a + S m)%nat by lia. repeat split; auto.
+Qed.
+
+Lemma t_rung_app early a : forall b s,
+  t_rung early s (a ++ b) =
+    (fst (t_rung early (fst (t_rung early s a)) b), snd (t_rung early s a) ++ snd (t_rung early (fst (t_rung early s a)) b)).
+Proof.
+  induction a as [|e a IH]; intros b s.
+  - cbn. destruct (t_rung early s b); reflexivity.
+  - cbn [app t_rung]. destruct (t_stepg early s e) as [s1 o]. rewrite IH.
+    destruct (t_rung early s1 a) as [s2 os]. cbn [fst snd]. reflexivity.
+Qed.
+
+Lemma last_app {A} (l l' : list A) d : l' <> [] -> last (l ++ l') d = last l' d.
+Proof.
+  intros H. induction l as [|x l IH]; [reflexivity|]. cbn [app].
+  assert (E : l ++ l' <> []) by (destruct l; [exact H|discriminate]).
+  destruct (l ++ l') eqn:E2; [contradiction|]. cbn [last]. exact IH.
+Qed.
+
+(* the outcome of the scenario for both places of the registration *)
+Lemma connect_with_loss_outcome early s n j : fresh s -> n = length (t_own s) -> (j <= n)%nat ->
+  j = n \/ allknown s ->
+  let os := snd (t_rung early s (connect_with_loss n j)) in
+  let s' := fst (t_rung early s (connect_with_loss n j)) in
+  if early
+  then last os ONone = OStop /\ t_cons s' = CIdle           (* the sentinel reaches the consumer *)
+  else last os ONone = ONoop /\ t_cons s' = CInGet /\ t_queue s' = [] /\ t_pend s' = 0%nat /\ t_conn s' = true.
+Proof.
+  intros (Fc & Fp & Fr & Fk & Fn & Fl) Hn Hj Hk. cbn zeta. unfold connect_with_loss.
+  rewrite (t_rung_app early [TConnBegin]). cbn [t_rung t_stepg fst snd]. rewrite Fp, Fc. cbn [fst snd].
+  set (s1 := upd s false [] (t_cons s) (t_pend s) (if early then true else t_reg s) (t_dreg s) (Some 0%nat)).
+  rewrite (t_rung_app early (repeat TConnCfg j)).
+  pose proof (cfg_steps early j s1 0%nat eq_refl ltac:(cbn; lia) (or_intror (or_introl Fl))) as P1. cbn zeta in P1.
+  destruct (t_rung early s1 (repeat TConnCfg j)) as [s2 o2]. cbn [fst snd] in *.
+  destruct P1 as (A1 & B1 & C1 & D1 & E1 & F1 & G1 & L1 & K1 & H1).
+  cbn [t_conn t_queue t_cons t_pend t_reg t_own t_link s1 upd] in *.
+  assert (Hm : (n - j = 0)%nat \/ allknown s2).
+  { destruct Hk as [Hk|Hk]; [left; lia|right; apply K1; exact Hk]. }
+  rewrite (t_rung_app early [TLost1]). cbn [t_rung t_stepg fst snd]. rewrite F1, B1.
+  destruct early.
+  - cbn [fst snd].
+    set (s3 := upd (set_link s2 false) false (t_queue s2) (t_cons s2) (S (t_pend s2)) true (t_dreg s2) (t_cpos s2)).
+    rewrite (t_rung_app true (repeat TConnCfg (n - j))).
+    assert (N3 : (n - j = 0)%nat \/ noraise s3).
+    { destruct Hm as [Hm|Hm]; [left; exact Hm|right; right; exact Hm]. }
+    pose proof (cfg_steps true (n - j) s3 j A1 ltac:(cbn; rewrite G1; lia) N3) as P2. cbn zeta in P2.
+    destruct (t_rung true s3 (repeat TConnCfg (n - j))) as [s4 o4]. cbn [fst snd] in *.
+    destruct P2 as (A2 & B2 & C2 & D2 & E2 & F2 & G2 & L2 & K2 & H2).
+    cbn [t_conn t_queue t_cons t_pend t_reg t_own t_link s3 upd set_link] in *.
+    cbn [t_rung t_stepg]. rewrite A2, G2, G1. replace (j + (n - j))%nat with n by lia.
+    rewrite Hn, Nat.eqb_refl. cbn [fst snd t_pend t_cons t_conn t_queue upd set_q].
+    rewrite E2, E1, Fn, D2, D1, Fk, C2, C1. cbn -[last app].
+    rewrite !app_assoc. rewrite last_app by discriminate. split; reflexivity.
+  - rewrite Fr. cbn [fst snd].
+    rewrite (t_rung_app false (repeat TConnCfg (n - j))).
+    assert (N3 : (n - j = 0)%nat \/ noraise (set_link s2 false)).
+    { destruct Hm as [Hm|Hm]; [left; exact Hm|right; right; exact Hm]. }
+    pose proof (cfg_steps false (n - j) (set_link s2 false) j A1 ltac:(cbn; rewrite G1; lia) N3) as P2. cbn zeta in P2.
+    destruct (t_rung false (set_link s2 false) (repeat TConnCfg (n - j))) as [s4 o4]. cbn [fst snd] in *.
+    destruct P2 as (A2 & B2 & C2 & D2 & E2 & F2 & G2 & L2 & K2 & H2).
+    cbn [t_conn t_queue t_cons t_pend t_reg t_own t_link set_link] in *.
+    cbn [t_rung t_stepg]. rewrite A2, G2, G1. replace (j + (n - j))%nat with n by lia.
+    rewrite Hn, Nat.eqb_refl. cbn [fst snd t_pend t_cons t_conn t_queue upd set_q].
+    rewrite E2, E1, Fn, D2, D1, Fk, C2, C1. cbn -[last app].
+    rewrite !app_assoc. rewrite last_app by discriminate. repeat split; reflexivity.
+Qed.
+
+(* the two readings of the outcome *)
+Lemma loss_during_connect_terminates s n j : fresh s -> n = length (t_own s) -> (j <= n)%nat ->
+  j = n \/ allknown s ->
+  last (snd (t_run s (connect_with_loss n j))) ONone = OStop /\
+  t_cons (fst (t_run s (connect_with_loss n j))) = CIdle.
+Proof. intros F Hn Hj Hk. exact (connect_with_loss_outcome true s n j F Hn Hj Hk). Qed.
+
+Lemma late_registration_blocks s n j : fresh s -> n = length (t_own s) -> (j <= n)%nat ->
+  j = n \/ allknown s ->
+  let s' := fst (t_rung false s (connect_with_loss n j)) in
+  last (snd (t_rung false s (connect_with_loss n j))) ONone = ONoop /\
+  t_cons s' = CInGet /\ t_queue s' = [] /\ t_pend s' = 0%nat /\ t_conn s' = true.
+Proof. intros F Hn Hj Hk. exact (connect_with_loss_outcome false s n j F Hn Hj Hk). Qed.
+
+(* the remaining case: the link is lost before a configuration that was never accepted: its start() raises,
+   connect() ends without _is_connected, and next() stops at once (with either place of the registration) *)
+Lemma loss_before_unknown_config early s j c : t_cpos s = Some j -> nth_error (t_own s) j = Some c ->
+  t_link s = false -> memz c (t_known s) = false -> t_conn s = false -> t_cons s = CIdle ->
+  let s1 := fst (t_stepg early s TConnCfg) in
+  snd (t_stepg early s TConnCfg) = ORaiseAttr /\ t_cpos s1 = None /\ t_conn s1 = false /\
+  t_stepg early s1 TNext = (s1, OStop).
+Proof.
+  intros Hc Hn Hl Hk Hcn Hco. cbn zeta. cbn [t_stepg]. rewrite Hc, Hn. unfold cfg_turn. rewrite Hl, Hk.
+  cbn. rewrite Hco, Hcn. repeat split; reflexivity.
 Qed.
 
 (* ------------------------------------------------------------------ several loggers: each sees its own projection *)
@@ -176,10 +398,7 @@ Proof.
 Qed.
 
 Lemma t_run_app a : forall b s, fst (t_run s (a ++ b)) = fst (t_run (fst (t_run s a)) b).
-Proof.
-  induction a as [|e a IH]; intros b s; [reflexivity|].
-  cbn [app]. rewrite !t_final_cons. apply IH.
-Qed.
+Proof. intros b s. unfold t_run. rewrite t_rung_app. reflexivity. Qed.
 
 Lemma sys_projection evs : forall ls i s, nth_error ls i = Some s ->
   nth_error (fst (sys_run ls evs)) i = Some (fst (t_run s (concat (map (proj i) evs)))).
@@ -199,4 +418,15 @@ Proof.
       apply Nat.eqb_eq in Ei. subst. congruence.
   - inversion Es; subst. rewrite nth_error_map, H. cbn [option_map]. rewrite t_final_cons. reflexivity.
   - inversion Es; subst. rewrite nth_error_map, H. cbn [option_map]. rewrite t_final_cons. reflexivity.
+  - inversion Es; subst. rewrite nth_error_map, H. cbn [option_map]. rewrite t_final_cons. reflexivity.
+  - destruct (nth_error ls i0) as [s'|] eqn:E0.
+    + destruct (t_step s' TConnCfg) as [s1 o1] eqn:E1. inversion Es; subst.
+      rewrite nth_error_map, nth_error_upd.
+      destruct (Nat.eqb i i0) eqn:Ei.
+      * apply Nat.eqb_eq in Ei. subst i0. rewrite E0. rewrite H in E0. inversion E0; subst.
+        cbn [option_map app]. rewrite t_final_cons, E1. cbn [fst]. rewrite t_final_cons. reflexivity.
+      * rewrite H. cbn [option_map app]. rewrite t_final_cons. reflexivity.
+    + inversion Es; subst. rewrite nth_error_map, H. cbn [option_map].
+      destruct (Nat.eqb i i0) eqn:Ei; [apply Nat.eqb_eq in Ei; subst; congruence|].
+      cbn [app]. rewrite t_final_cons. reflexivity.
 Qed.
